@@ -48,12 +48,12 @@ Section Sim.
 
   Inductive fstep (p p' : N) : Prop :=
   | fs_end : tk p = None -> tk' p' = None -> fstep p p'
-  | fs_sig t : tk p = Some t -> tk' p' = Some t -> sigb t = true -> R (p + 1) (p' + 1) -> fstep p p'
+  | fs_sig t : tk p = Some t -> tk' p' = Some t -> R (p + 1) (p' + 1) -> fstep p p'
   | fs_gap q q' : grun g toks p q -> grun g toks' p' q' -> R q q' -> noin p q -> noin' p' q' -> fstep p p'.
 
   Inductive bstep (p p' : N) : Prop :=
   | bs_zero : p = 0 -> p' = 0 -> bstep p p'
-  | bs_sig t : 0 < p -> 0 < p' -> tk (p - 1) = Some t -> tk' (p' - 1) = Some t -> sigb t = true ->
+  | bs_sig t : 0 < p -> 0 < p' -> tk (p - 1) = Some t -> tk' (p' - 1) = Some t ->
                R (p - 1) (p' - 1) -> bstep p p'
   | bs_gap q q' b : grun g toks q p -> grun g toks' q' p' -> R q q' -> noin q p -> noin' q' p' ->
                     lastw tk p b -> lastw tk' p' b -> bstep p p'.
@@ -64,10 +64,10 @@ Section Sim.
   Hypothesis R_mono : forall a a' b b', R a a' -> R b b' -> (a < b <-> a' < b').
   Hypothesis R_fwd : forall p p', R p p' -> fstep p p'.
   Hypothesis R_bwd : forall p p', R p p' -> bstep p p'.
-  Hypothesis rx_sig : forall rid p p' t, R p p' -> tk p = Some t -> tk' p' = Some t -> sigb t = true ->
+  Hypothesis rx_sig : forall rid p p' t, R p p' -> tk p = Some t -> tk' p' = Some t ->
     rxhit rid p rx = rxhit rid p' rx'.
-  Hypothesis rx_gap : forall rid p t, tk p = Some t -> gapb t = true -> rxhit rid p rx = false.
-  Hypothesis rx_gap' : forall rid p t, tk' p = Some t -> gapb t = true -> rxhit rid p rx' = false.
+  Hypothesis rx_gap : forall rid p t, tk p = Some t -> okgap g t -> rxhit rid p rx = false.
+  Hypothesis rx_gap' : forall rid p t, tk' p = Some t -> okgap g t -> rxhit rid p rx' = false.
 
   (* ---------------------------------------------------------------- order facts *)
   Lemma R_fun a a1 a2 : R a a1 -> R a a2 -> a1 = a2.
@@ -98,7 +98,7 @@ Section Sim.
 
   Lemma R_zero p p' : R p p' -> (p = 0 <-> p' = 0).
   Proof.
-    intro H. destruct (R_bwd _ _ H) as [-> ->|t ? ? _ _ _ _|q q' b [? _] [? _] _ _ _ _ _]; [tauto|lia|lia].
+    intro H. destruct (R_bwd _ _ H) as [-> ->|t ? ? _ _ _|q q' b [? _] [? _] _ _ _ _ _]; [tauto|lia|lia].
   Qed.
   Lemma R_eqb0 p p' : R p p' -> (p' =? 0) = (p =? 0).
   Proof.
@@ -240,7 +240,7 @@ Section Sim.
     destruct (p <? mx) eqn:E.
     2:{ rewrite (skip_fwd_eq toks), (skip_fwd_eq toks'). rcmp. rewrite E. exact Hp. }
     assert (Eb : (p <? mx) = true) by exact E. apply N.ltb_lt in E.
-    destruct (R_fwd _ _ Hp) as [En En'|t Et Et' Hs Hn|q q' Hr Hr' Hq Hno Hno'].
+    destruct (R_fwd _ _ Hp) as [En En'|t Et Et' Hn|q q' Hr Hr' Hq Hno Hno'].
     - rewrite (skip_fwd_eq toks), (skip_fwd_eq toks'). rcmp. rewrite Eb.
       rewrite (tok_none toks len p En), (tok_none toks' len' p' En'). reflexivity.
     - rewrite (skip_fwd_eq toks), (skip_fwd_eq toks'). rcmp. rewrite Eb.
@@ -272,7 +272,7 @@ Section Sim.
     destruct (mn <? p) eqn:E.
     2:{ rewrite (skip_back_eq toks), (skip_back_eq toks'). rcmp. rewrite E. exact Hp. }
     assert (Eb : (mn <? p) = true) by exact E. apply N.ltb_lt in E.
-    destruct (R_bwd _ _ Hp) as [-> ->|t H0 H0' Et Et' Hs Hn|q q' b Hr Hr' Hq Hno Hno' _ _]; [lia| |].
+    destruct (R_bwd _ _ Hp) as [-> ->|t H0 H0' Et Et' Hn|q q' b Hr Hr' Hq Hno Hno' _ _]; [lia| |].
     - rewrite (skip_back_eq toks), (skip_back_eq toks'). rcmp. rewrite Eb.
       rewrite (tok_sim_sig _ _ _ _ _ Hl Hn Et Et').
       destruct (tok toks len (p - 1)) as [t0| | |]; cbn; auto.
@@ -301,7 +301,7 @@ Section Sim.
     destruct (p <? b) eqn:E.
     2:{ rewrite (anc_eq toks), (anc_eq toks'). rcmp. rewrite E. reflexivity. }
     assert (Eb : (p <? b) = true) by exact E. apply N.ltb_lt in E.
-    destruct (R_fwd _ _ Hp) as [En En'|t Et Et' Hs Hn|q q' Hr Hr' Hq Hno Hno'].
+    destruct (R_fwd _ _ Hp) as [En En'|t Et Et' Hn|q q' Hr Hr' Hq Hno Hno'].
     - rewrite (anc_eq toks), (anc_eq toks'). rcmp. rewrite Eb.
       rewrite (tok_none toks len p En), (tok_none toks' len' p' En'). reflexivity.
     - rewrite (anc_eq toks), (anc_eq toks'). rcmp. rewrite Eb.
@@ -343,7 +343,7 @@ Section Sim.
     destruct (p <? len) eqn:E.
     2:{ rewrite (ncs_eq toks), (ncs_eq toks'). rcmp. rewrite E. exact I. }
     assert (Eb : (p <? len) = true) by exact E. apply N.ltb_lt in E.
-    destruct (R_fwd _ _ Hp) as [En En'|t Et Et' Hs Hn|q q' Hr Hr' Hq Hno Hno'].
+    destruct (R_fwd _ _ Hp) as [En En'|t Et Et' Hn|q q' Hr Hr' Hq Hno Hno'].
     - rewrite (ncs_eq toks), (ncs_eq toks'). rcmp. rewrite Eb.
       rewrite (tok_none toks len p En), (tok_none toks' len' p' En'). reflexivity.
     - rewrite (ncs_eq toks), (ncs_eq toks'). rcmp. rewrite Eb.
@@ -367,7 +367,7 @@ Section Sim.
     intros Hl. induction k as [k IH] using lt_wf_ind. intros p p' Hk Hp.
     unfold prune. rewrite (first_nonws_eq toks), (first_nonws_eq toks'). rcmp.
     destruct (p <? len) eqn:E; [|reflexivity]. apply N.ltb_lt in E.
-    destruct (R_fwd _ _ Hp) as [En En'|t Et Et' Hs Hn|q q' Hr Hr' Hq Hno Hno'].
+    destruct (R_fwd _ _ Hp) as [En En'|t Et Et' Hn|q q' Hr Hr' Hq Hno Hno'].
     - rewrite En, En'. reflexivity.
     - rewrite Et, Et'. destruct (p_fnw t); [reflexivity|].
       apply (IH (N.to_nat (len - (p + 1)))); [lia|reflexivity|exact Hn].
@@ -384,7 +384,7 @@ Section Sim.
     intros Hl Hw. induction k as [k IH] using lt_wf_ind. intros i i' Hk Hi.
     rewrite (asc_eq g toks), (asc_eq g toks'). rewrite (R_eqb0 _ _ Hi).
     destruct (i =? 0) eqn:E0; [reflexivity|]. apply N.eqb_neq in E0.
-    destruct (R_bwd _ _ Hi) as [-> ->|t H0 H0' Et Et' Hs Hn|q q' b Hr Hr' Hq Hno Hno' Hb Hb']; [lia| |].
+    destruct (R_bwd _ _ Hi) as [-> ->|t H0 H0' Et Et' Hn|q q' b Hr Hr' Hq Hno Hno' Hb Hb']; [lia| |].
     - rewrite (tok_sim_sig _ _ _ _ _ Hl Hn Et Et').
       destruct (tok toks len (i - 1)) as [t0| | |]; cbn; auto.
       destruct (p_meta t0); [|reflexivity]. rcmp.
@@ -406,13 +406,13 @@ Section Sim.
   (* ---------------------------------------------------------------- one token *)
   (** what the two runs see at related positions *)
   Definition trel (p p' : N) (t t' : ptok) : Prop :=
-    (t' = t /\ sigb t = true /\ R (p + 1) (p' + 1)) \/ (okgap g t /\ okgap g t').
+    (t' = t /\ R (p + 1) (p' + 1)) \/ (okgap g t /\ okgap g t').
 
   Lemma tok_sim len len' p p' : R len len' -> R p p' ->
     res_sim (trel p p') (tok toks len p) (tok toks' len' p').
   Proof.
     intros Hl Hp.
-    destruct (R_fwd _ _ Hp) as [En En'|t Et Et' Hs Hn|q q' Hr Hr' Hq Hno Hno'].
+    destruct (R_fwd _ _ Hp) as [En En'|t Et Et' Hn|q q' Hr Hr' Hq Hno Hno'].
     - rewrite (tok_none toks len p En), (tok_none toks' len' p' En'). reflexivity.
     - unfold tok. rcmp. rewrite Et, Et'. destruct (p <? len); [|reflexivity]. left. auto.
     - destruct (grun_first g toks _ _ Hr) as (t & Et & Hok). destruct (grun_first g toks' _ _ Hr') as (t' & Et' & Hok').
@@ -479,7 +479,7 @@ Section Sim.
       res_sim mr_sim (rec n p len terms) (rec' n p' len' terms).
     Hypothesis Hanch : forall n p len terms m, anch U n = true -> p <= len -> rec n p len terms = ROk m -> anchored p m.
     Hypothesis Honetok : forall n p len terms m, onetok g n = true -> rec n p len terms = ROk m ->
-      has_match m = true -> mr_end m = p + 1 /\ exists t, tk p = Some t /\ sigb t = true.
+      has_match m = true -> mr_end m = p + 1 /\ exists t, tk p = Some t /\ ~ okgap g t.
 
     Lemma any_matches_sim ts i i' len len' terms : R i i' -> R len len' -> TA terms ->
       res_sim eq (any_matches rec ts i len terms) (any_matches rec' ts i' len' terms).
@@ -511,7 +511,7 @@ Section Sim.
       destruct (p <? len) eqn:E.
       2:{ rewrite (nms_eq g toks), (nms_eq g toks'). rcmp. rewrite E. exact I. }
       assert (Eb : (p <? len) = true) by exact E. apply N.ltb_lt in E.
-      destruct (R_fwd _ _ Hp) as [En En'|t Et Et' Hsg Hn|q q' Hr Hr' Hq Hno Hno'].
+      destruct (R_fwd _ _ Hp) as [En En'|t Et Et' Hn|q q' Hr Hr' Hq Hno Hno'].
       - rewrite (nms_eq g toks), (nms_eq g toks'). rcmp. rewrite Eb.
         rewrite (tok_none toks len p En), (tok_none toks' len' p' En'). reflexivity.
       - rewrite (nms_eq g toks), (nms_eq g toks'). rcmp. rewrite Eb.
@@ -888,7 +888,7 @@ Section Sim.
     Lemma rb_loop_end fl : forall len opening ti starts ends pers terms nested mi ch r,
       (forall c, In c (starts ++ ends) -> onetok g c = true) ->
       rb_loop g toks rec fl len opening ti starts ends pers terms nested mi ch = ROk r ->
-      exists i t, mr_end r = i + 1 /\ tk i = Some t /\ sigb t = true.
+      exists i t, mr_end r = i + 1 /\ tk i = Some t /\ ~ okgap g t.
     Proof.
       induction fl as [|fl IH]; intros len opening ti starts ends pers terms nested mi ch r Hone H;
         cbn [rb_loop] in H; [discriminate|].
@@ -933,10 +933,10 @@ Section Sim.
         apply rb_loop_end in Ebm.
         2:{ intros c [<-|[<-|[]]]; assumption. }
         destruct Ebm as (i & t & Hei & Hti & Hsi).
-        destruct (R_bwd _ _ Hbe) as [H0 _|t0 _ _ _ _ _ Hn|q q' b Hr _ _ _ _ _ _]; [lia|exact Hn|].
+        destruct (R_bwd _ _ Hbe) as [H0 _|t0 _ _ _ _ Hn|q q' b Hr _ _ _ _ _ _]; [lia|exact Hn|].
         destruct (grun_last g toks _ _ Hr) as (t1 & Et1 & Hok1).
         replace (mr_end bm - 1) with i in Et1 by lia. rewrite Hti in Et1. inversion Et1; subst t1.
-        destruct Hok1 as [Hg _]. unfold gapb in Hg. rewrite Hsi in Hg. discriminate. }
+        exfalso. exact (Hsi Hok1). }
       pose proof (mr_sim_end _ _ Hsm) as Hse.
       eapply (res_sim_bind R).
       { destruct gaps; [exact (skip_fwd_sim len len' len len' Hl Hl _ _ _ eq_refl Hse)|exact Hse]. }
@@ -1097,38 +1097,38 @@ Section Sim.
       - (* GNodeM *)
         rcmp. destruct (len <=? idx); [apply empty_at_sim; exact Hi|].
         eapply res_sim_bind; [apply (tok_sim len len' idx idx' Hl Hi)|].
-        intros t t' [(-> & Hs & Hn)|(Hk & Hk')].
+        intros t t' [(-> & Hn)|(Hk & Hk')].
         + destruct (p_kind t =? kind); [apply from_span_sim; assumption|].
           eapply res_sim_bind; [apply Hrec; assumption|]. intros m m' Hm. apply wrap_sim; exact Hm.
         + pose proof (Hkf _ Hk) as E1. pose proof (Hkf _ Hk') as E2. apply negb_true_iff in E1, E2. rewrite E1, E2.
           eapply res_sim_bind; [apply Hrec; assumption|]. intros m m' Hm. apply wrap_sim; exact Hm.
       - (* GString *)
         eapply res_sim_bind; [apply (tok_sim len len' idx idx' Hl Hi)|].
-        intros t t' [(-> & Hs & Hn)|(Hk & Hk')].
+        intros t t' [(-> & Hn)|(Hk & Hk')].
         + destruct (p_code t && (p_upper t =? upper)); [apply one_token_sim; assumption|apply empty_at_sim; exact Hi].
         + rewrite (okgap_code g t Hk), (okgap_code g t' Hk'). apply empty_at_sim; exact Hi.
       - (* GMulti *)
         eapply res_sim_bind; [apply (tok_sim len len' idx idx' Hl Hi)|].
-        intros t t' [(-> & Hs & Hn)|(Hk & Hk')].
+        intros t t' [(-> & Hn)|(Hk & Hk')].
         + destruct (p_code t && memN (p_upper t) uppers); [apply one_token_sim; assumption|apply empty_at_sim; exact Hi].
         + rewrite (okgap_code g t Hk), (okgap_code g t' Hk'). apply empty_at_sim; exact Hi.
       - (* GTyped *)
         eapply res_sim_bind; [apply (tok_sim len len' idx idx' Hl Hi)|].
-        intros t t' [(-> & Hs & Hn)|(Hk & Hk')].
+        intros t t' [(-> & Hn)|(Hk & Hk')].
         + destruct (p_kind t =? template); [apply one_token_sim; assumption|apply empty_at_sim; exact Hi].
         + pose proof (Hkf _ Hk) as E1. pose proof (Hkf _ Hk') as E2. apply negb_true_iff in E1, E2. rewrite E1, E2.
           apply empty_at_sim; exact Hi.
       - (* GRegex *)
         change (existsb (fun p => (fst p =? rid) && (snd p =? idx)) rx) with (rxhit rid idx rx).
         change (existsb (fun p => (fst p =? rid) && (snd p =? idx')) rx') with (rxhit rid idx' rx').
-        destruct (R_fwd _ _ Hi) as [En0 En0'|t Et Et' Hs Hn|q q' Hr Hr' Hq Hno Hno'].
+        destruct (R_fwd _ _ Hi) as [En0 En0'|t Et Et' Hn|q q' Hr Hr' Hq Hno Hno'].
         + rewrite (tok_none toks len idx En0), (tok_none toks' len' idx' En0'). reflexivity.
         + unfold tok. rcmp. rewrite Et, Et'. destruct (idx <? len); [|reflexivity]. cbn [bind].
-          rewrite <- (rx_sig rid idx idx' t Hi Et Et' Hs).
+          rewrite <- (rx_sig rid idx idx' t Hi Et Et').
           destruct (rxhit rid idx rx); [apply one_token_sim; assumption|apply empty_at_sim; exact Hi].
         + destruct (grun_first g toks _ _ Hr) as (t & Et & Hk). destruct (grun_first g toks' _ _ Hr') as (t' & Et' & Hk').
           unfold tok. rcmp. rewrite Et, Et'. destruct (idx <? len); [|reflexivity]. cbn [bind].
-          rewrite (rx_gap rid idx t Et (proj1 Hk)), (rx_gap' rid idx' t' Et' (proj1 Hk')).
+          rewrite (rx_gap rid idx t Et Hk), (rx_gap' rid idx' t' Et' Hk').
           apply empty_at_sim; exact Hi.
       - reflexivity.
       - destruct enabled; [|apply empty_at_sim; exact Hi].
@@ -1143,7 +1143,7 @@ Section Sim.
         cbn in Hj. rcmp. destruct (idx <? j); [apply from_span_sim; assumption|apply empty_at_sim; exact Hi].
       - (* GBracketSeg *)
         eapply res_sim_bind; [apply (tok_sim len len' idx idx' Hl Hi)|].
-        intros t t' [(-> & Hs & Hn)|(Hk & Hk')].
+        intros t t' [(-> & Hn)|(Hk & Hk')].
         + destruct (p_kind t =? k_bracketed g); [apply from_span_sim; assumption|apply empty_at_sim; exact Hi].
         + rewrite (okgap_bracketed g t Hk), (okgap_bracketed g t' Hk'). apply empty_at_sim; exact Hi.
     Qed.
